@@ -201,6 +201,22 @@ FRAMES = [
     ("src/lib.rs", "try_alloc_try_with", "tatw_error_read_once", "}}Err(AllocOrInitError::Init(ptr::read(eas*const_)))},}"),
     ("src/lib.rs", "alloc_slice_try_fill_with", "try_fill_releases_on_error",
      "Err(e)=>{self.dealloc(base_ptr,layout);returnErr(e);}"),
+    # Box: owning the value but not the memory — what Drop, the raw round trip, leak, into_inner, the
+    # array/slice conversions and downcast are made of ("*": the statement is looked for in the whole file)
+    ("src/boxed.rs", "drop", "box_drop_runs_destructor_only", "{unsafe{core::ptr::drop_in_place(self.0);}}"),
+    ("src/boxed.rs", "new_in", "box_new_allocates_in_arena", "{Box(a.alloc(x))}"),
+    ("src/boxed.rs", "into_inner", "box_into_inner_reads_out", "{unsafe{core::ptr::read(Box::into_raw(b))}}"),
+    ("src/boxed.rs", "from_raw", "box_from_raw_wraps", "{Box(&mut*raw)}"),
+    ("src/boxed.rs", "into_raw", "box_into_raw_forgets", "{letmutb=ManuallyDrop::new(b);b.deref_mut().0as*mutT}"),
+    ("src/boxed.rs", "leak", "box_leak_is_into_raw", "{unsafe{&mut*Box::into_raw(b)}}"),
+    ("src/boxed.rs", "*", "box_array_to_slice",
+     "fnfrom(arr:Box<'a,[T;N]>)->Box<'a,[T]>{letmutarr=ManuallyDrop::new(arr);letptr=core::ptr::slice_from_raw_parts_mut(arr.as_mut_ptr(),N);unsafe{Box::from_raw(ptr)}}"),
+    ("src/boxed.rs", "*", "box_slice_to_array",
+     "fntry_from(slice:Box<'a,[T]>)->Result<Box<'a,[T;N]>,Box<'a,[T]>>{ifslice.len()==N{letmutslice=ManuallyDrop::new(slice);letptr=slice.as_mut_ptr()as*mut[T;N];Ok(unsafe{Box::from_raw(ptr)})}else{Err(slice)}}"),
+    ("src/boxed.rs", "*", "box_downcast_any",
+     "pubfndowncast<T:Any>(self)->Result<Box<'a,T>,Box<'a,dynAny>>{ifself.is::<T>(){unsafe{letraw:*mutdynAny=Box::into_raw(self);Ok(Box::from_raw(rawas*mutT))}}else{Err(self)}}"),
+    ("src/boxed.rs", "*", "box_downcast_any_send",
+     "pubfndowncast<T:Any>(self)->Result<Box<'a,T>,Box<'a,dynAny+Send>>{ifself.is::<T>(){unsafe{letraw:*mut(dynAny+Send)=Box::into_raw(self);Ok(Box::from_raw(rawas*mutT))}}else{Err(self)}}"),
     # Vec: what surrounds the located expressions of insert / remove
     ("src/collections/vec.rs", "insert", "vec_insert_grows_then_writes",
      "iflen==self.buf.cap(){self.reserve(1);}unsafe{{letp=self.as_mut_ptr().add(index);ptr::copy(p,p.offset(1),len-index);ptr::write(p,element);}self.set_len(len+1);}"),
@@ -1195,15 +1211,19 @@ def emit(repo):
     for path, fname, label, text in FRAMES:
         try:
             src = strip_comments(open(os.path.join(repo, path)).read())
-            found = find_fn(src, fname)
-            ok = bool(found) and text in re.sub(r"\s+", "", found[1])
+            if fname == "*":
+                ok = text in re.sub(r"\s+", "", src)
+            else:
+                found = find_fn(src, fname)
+                ok = bool(found) and text in re.sub(r"\s+", "", found[1])
         except OSError:
             ok = False
         frames.append((label, ok, path))
     # one list per part of the crate, so that a rewrite in one part fails only that part's obligation
     for name, pred in (("src_frames", lambda p: p == "src/lib.rs"),
                        ("src_frames_vec", lambda p: p in ("src/collections/vec.rs", "src/collections/raw_vec.rs")),
-                       ("src_frames_string", lambda p: p == "src/collections/string.rs")):
+                       ("src_frames_string", lambda p: p == "src/collections/string.rs"),
+                       ("src_frames_box", lambda p: p == "src/boxed.rs")):
         out.append("Definition %s : list (string * bool) := [" % name)
         out.append(";\n".join("  (%s, %s)" % (q(l), "true" if ok else "false") for l, ok, pth in frames if pred(pth)))
         out.append("].")
